@@ -343,8 +343,10 @@ class ValGen:
                 nm = bytes([r.choice(b"ABCDEFG")]) + bytes(r.choice(b"abc") for _ in range(r.below(3)))
                 if nm in names: continue
                 names.add(nm)
-                tag = r.choice([b"", b"", b"t1", b"t2"]) if r.below(3) == 0 else b""
-                fs.append((nm, tag, self.node(depth + 1)))
+                # tags in the option syntax of other encoders are plain names here; zero values are written like any other
+                tag = r.choice([b"", b"", b"t1", b"t2", b"t1,omitempty", b",omitempty", b"-", b"t2,string", b"x,"]) if r.below(3) == 0 else b""
+                val = r.choice([("int", "i", 0), ("str", "s", b""), ("nil",), ("bool", False), ("tuple", []), ("list", "l", [])]) if r.below(4) == 0 else self.node(depth + 1)
+                fs.append((nm, tag, val))
             return ("struct", fs)
         if k == 17:
             z = r.choice(["A", "B", "C", "E", "G"])
@@ -451,6 +453,8 @@ def gate_matrix():
             ("map", "d", [(("tuple", [one, ("str", "z", b"k")]), one)]), ("map", "m", [(("none",), ("nil",))]),
             ("struct", []), ("struct", [(b"A", b"", one)]), ("struct", [(b"A", b"ta", one), (b"B", b"", one)]),
             ("struct", [(b"A", b"t", one), (b"B", b"t", ("int", "i", 2))]),
+            ("struct", [(b"A", b"n,omitempty", ("int", "i", 0)), (b"B", b"", one)]), ("struct", [(b"A", b"-", one), (b"B", b"-,", ("nil",))]),
+            ("struct", [(b"A", b",omitempty", ("str", "s", b"")), (b"B", b"n,omitempty", ("bool", False)), (b"C", b"c,omitempty", one)]),
             ("zoo", "A", [("str", "s", b"x"), one]), ("zoo", "B", [one, one, ("str", "s", b"z")]),
             ("zoo", "C", [one, one, ("str", "s", b"z"), one]), ("zoo", "E", [one, one]), ("zoo", "G", [one, ("int", "i", 2), ("int", "i", 3)]),
             ("zoo", "F", [("list", "l", [one]), one, ("map", "m", [(one, one)]), one, ("str", "s", b"e"), ("tuple", [one]), ("str", "s", b"gh")]),
